@@ -829,6 +829,28 @@ def rule_option_or_else(text, dropped):
     return text
 
 
+def rule_mut_self(text, dropped):
+    """`fn f(mut self, ..) -> T { BODY }` (Verus: "mut self" unsupported)  ->  `fn f(self, ..) -> T { let mut verif_self = self; BODY }`
+    with every `self` of BODY renamed to `verif_self`; in the contract `self` is then the value passed in (soft)"""
+    m = re.search(r'\(\s*mut\s+self\b', text)
+    if not m:
+        return text
+    text = text[:m.start()] + re.sub(r'mut\s+self', 'self', m.group(0)) + text[m.end():]
+    body_open, body_close = fn_parts(text)
+    body = text[body_open + 1:body_close]
+    out = []
+    pos = 0
+    for t in lex(body):
+        if t.kind not in ('comment', 'doc', 'str') and t.text == 'self':
+            out.append(body[pos:t.s])
+            out.append('verif_self')
+            pos = t.e
+    out.append(body[pos:])
+    text = text[:body_open + 1] + ' let mut verif_self = self;' + ''.join(out) + text[body_close:]
+    dropped.append(('mut-self', '`mut self` parameter written as `self` + `let mut verif_self = self;`, body renamed'))
+    return text
+
+
 def rule_lock_scope(text, dropped):
     """Make the lifetime of a shard-lock guard explicit and count it in the ghost variable `verif_locks`.
        `RECV.write().with(|mut NAME| BODY)`  ->  `{ let mut NAME = RECV.verif_lock_write(); proof { verif_locks = verif_locks + 1; }
@@ -976,6 +998,7 @@ RULES = {
     'iter-arg': rule_iter_arg,
     'guard-for-each': rule_guard_for_each,
     'option-or-else': rule_option_or_else,
+    'mut-self': rule_mut_self,
 }
 
 
